@@ -231,6 +231,7 @@ class Net(object):
     self.chunk_mode = cfg.get('chunk', 'none')   # none | some | bytes
     self.jitter = cfg.get('jitter', 0.0002)
     self.dns_multi = cfg.get('dns_multi', False)
+    self.sndbuf = cfg.get('sndbuf', 4096)     # what one send() call accepts at most
     self.fired = {}
     self.seq = 0
     self.send_log = []        # (seq, time, conn id, bytes)
@@ -510,6 +511,10 @@ class FakeGSocket(object):
     if kind == 'silence':
       conn.go_silent()
       return len(data)
+    if not all_ and len(data) > net.sndbuf:
+      # send() (unlike sendall()) takes what fits into the socket's send buffer
+      data = data[:net.sndbuf]
+      net.count('short_send')
     conn.client_sent(data)
     return len(data)
 
